@@ -24,6 +24,7 @@ fn unit_scenario(direct: Direct, initial_parts: Vec<(u8, u16)>, steps: Vec<Step>
         manual_getinfo: false,
         crash_at: vec![],
         freeze: None,
+        hold: vec![],
     }
 }
 
